@@ -230,3 +230,159 @@ pub fn c09(rng: &mut Rng, thorough: bool, idx: u64) -> Spec {
     spec.oracles = vec!["c09_auth".into(), "liveness".into()];
     spec
 }
+
+/// C10: runners with long-running statements (bare and inside transactions), short ones,
+/// idle periods and departures inside a transaction; cancellers sending CancelRequests with the
+/// target's key (while it runs, right after its transaction ended, long after, after it left),
+/// with a wrong secret, a wrong pid, or a random key. Small pools so that the server a client
+/// used is immediately borrowed by another one.
+pub fn c10(rng: &mut Rng, thorough: bool, idx: u64) -> Spec {
+    let session = idx % 5 == 4;
+    let pool_size = rng.range(1, 2) as u32;
+    let replicas = *rng.pick(&[0usize, 0, 1, 2]);
+    let mut cfg = single_pool(if session { "session" } else { "transaction" }, pool_size, replicas);
+    cfg.set("connect_timeout", 60000);
+    cfg.pools[0].lb = rng.pick(&["random", "loc"]).to_string();
+    let nrun = rng.range(2, if thorough { 5 } else { 4 }) as u32;
+    let mut clients = Vec::new();
+    // (client, step idx of a sleeping statement, sleep ms), (client, step idx of the last step of a txn), leavers
+    let mut sleeps: Vec<(u32, usize, u64)> = Vec::new();
+    let mut txn_ends: Vec<(u32, usize)> = Vec::new();
+    let mut leavers: Vec<u32> = Vec::new();
+    for id in 1..=nrun {
+        let mut p = Prog::new(id);
+        let nblocks = rng.range(1, if thorough { 5 } else { 3 });
+        let leaves_in_txn = !session && rng.chance(0.3);
+        for b in 0..nblocks {
+            if rng.chance(0.6) {
+                p.think(rng.range(0, 250));
+            }
+            p.new_txn();
+            let last = b + 1 == nblocks;
+            if last && leaves_in_txn {
+                p.simple("BEGIN".into());
+                let s = p.select(1, 0, "");
+                p.simple(s);
+                break;
+            }
+            match rng.below(4) {
+                0 => {
+                    let s = p.select(1, 0, "");
+                    p.simple(s);
+                }
+                1 => {
+                    let ms = rng.range(80, 700);
+                    let s = p.select(1, 0, &format!(", sim_sleep({})", ms));
+                    p.simple(s);
+                    sleeps.push((id, p.steps.len() - 1, ms));
+                }
+                2 => {
+                    p.simple("BEGIN".into());
+                    let ms = rng.range(80, 700);
+                    let s = p.select(1, 0, &format!(", sim_sleep({})", ms));
+                    p.simple(s);
+                    sleeps.push((id, p.steps.len() - 1, ms));
+                    if rng.chance(0.5) {
+                        p.think(rng.range(0, 60));
+                        let s = p.select(1, 0, "");
+                        p.simple(s);
+                    }
+                    p.simple(if rng.chance(0.8) { "COMMIT" } else { "ROLLBACK" }.into());
+                }
+                _ => {
+                    // extended protocol with a sleeping Execute
+                    let ms = rng.range(80, 500);
+                    let tag = p.tag();
+                    let sql = format!("SELECT '{}', sim_sleep({})", tag, ms);
+                    p.send(vec![
+                        FrontMsg::P { name: String::new(), sql, types: vec![] },
+                        FrontMsg::B { portal: String::new(), stmt: String::new(), fmt: vec![], params: vec![], rfmt: vec![], binary_hex: false },
+                        FrontMsg::E { portal: String::new(), max: 0 },
+                        FrontMsg::S,
+                    ]);
+                    sleeps.push((id, p.steps.len() - 1, ms));
+                }
+            }
+            txn_ends.push((id, p.steps.len() - 1));
+        }
+        if leaves_in_txn {
+            p.steps.push(Step::Drop { abort: rng.chance(0.5) });
+            leavers.push(id);
+        } else if rng.chance(0.7) {
+            p.steps.push(Step::Terminate);
+        } else {
+            p.steps.push(Step::Drop { abort: false });
+        }
+        let mut c = client(id, "app", "db", "apppw", rng.range(0, 150), p.steps);
+        c.role = "worker".into();
+        clients.push(c);
+    }
+    // a late victim: starts a long statement after everybody else has been at work for a while
+    let victim = nrun + 1;
+    {
+        let mut p = Prog::new(victim);
+        for _ in 0..rng.range(1, 3) {
+            p.new_txn();
+            let s = p.select(1, 0, &format!(", sim_sleep({})", rng.range(300, 1200)));
+            p.simple(s);
+            p.think(rng.range(0, 50));
+        }
+        p.steps.push(Step::Terminate);
+        let mut c = client(victim, "app", "db", "apppw", rng.range(100, 900), p.steps);
+        c.role = "canary".into();
+        clients.push(c);
+    }
+    // cancellers
+    let ncanc = rng.range(1, if thorough { 4 } else { 3 }) as u32;
+    for k in 0..ncanc {
+        let id = 100 + k;
+        let mut steps = Vec::new();
+        for _ in 0..rng.range(1, 4) {
+            let mode = rng.below(10);
+            let (ev, delay, target, key): (Option<String>, u64, u32, &str) = match mode {
+                // while the target's statement runs
+                0..=2 if !sleeps.is_empty() => {
+                    let (c, s, ms) = *rng.pick(&sleeps);
+                    (Some(format!("c{}.s{}.sent", c, s)), rng.range(0, ms.saturating_sub(20).max(1)), c, "target")
+                }
+                // same moment, wrong key material
+                3 if !sleeps.is_empty() => {
+                    let (c, s, ms) = *rng.pick(&sleeps);
+                    (Some(format!("c{}.s{}.sent", c, s)), rng.range(0, ms / 2), c, *rng.pick(&["wrongsecret", "wrongpid", "random"]))
+                }
+                // right after / well after the end of a transaction
+                4..=6 if !txn_ends.is_empty() => {
+                    let (c, s) = *rng.pick(&txn_ends);
+                    let d = if rng.chance(0.4) { rng.range(0, 3) } else { rng.range(150, 600) };
+                    (Some(format!("c{}.s{}.done", c, s)), d, c, "target")
+                }
+                // after the target left (inside a transaction, if there is such a client)
+                7 | 8 => {
+                    let c = if !leavers.is_empty() { *rng.pick(&leavers) } else { rng.range(1, nrun as u64) as u32 };
+                    (Some(format!("c{}.done", c)), if rng.chance(0.3) { rng.range(0, 3) } else { rng.range(150, 800) }, c, "target")
+                }
+                _ => (None, rng.range(0, 1500), rng.range(1, victim as u64) as u32, *rng.pick(&["target", "target", "random", "wrongsecret"])),
+            };
+            if let Some(ev) = ev {
+                steps.push(Step::Wait { ev });
+            }
+            steps.push(Step::Think { ms: delay });
+            steps.push(Step::Cancel { target, key: key.to_string() });
+        }
+        steps.push(Step::Terminate);
+        let mut c = client(id, "app", "db", "apppw", 0, steps);
+        c.role = "canceller".into();
+        clients.push(c);
+    }
+    let net = if rng.chance(0.4) { net_calm() } else { NetSpec { latency_ms: (0, *rng.pick(&[0u64, 1, 3])), jitter_ms: *rng.pick(&[0u64, 0, 1]), ..net_swarm(rng) } };
+    let mut spec = Spec { config_toml: cfg.render(), hosts: cfg.hosts(), net, clients, end: EndSpec { deadline_ms: 900_000, calm_ms: 50 }, ..Default::default() };
+    for site in ["client.after_claim", "client.before_release", "client.before_get"] {
+        if rng.chance(0.3) {
+            spec.yield_sites.push((site.to_string(), rng.range(1, 4) as u32));
+        }
+    }
+    spec.params = params_from(&cfg);
+    spec.family = format!("cancel/{}/pool{}/rep{}", if session { "session" } else { "transaction" }, pool_size, replicas);
+    spec.oracles = vec!["c10_cancel".into(), "liveness".into(), "no_panic".into()];
+    spec
+}
